@@ -5,9 +5,8 @@ META = {
               "proves that no call performs more than KMAX allocations, so every failure position of every call is covered; APIs: "
               "varintDictEncode, DictDecode, DictDecodeInto, DictBuild on a live dictionary (usable afterwards), varintPFOREncode at "
               "90/95/99, varintAdaptiveEncodeWith / Decode under each forced encoding, varintAdaptiveAnalyze, varintFloatEncode / "
-              "Decode (FULL precision, three exponent modes); bitmap operations: see the C08 harnesses run with failure injection "
-              "(bitmap-oom-* queries)",
-    "outside": "n > 2; two simultaneous allocation failures in one call; the adaptive BITMAP arm end to end (symbolic execution "
+              "Decode (FULL precision, three exponent modes, thorough tier)",
+    "outside": "n > 2; two simultaneous allocation failures in one call; bitmap operations under failure (harness/bitmap/step.c OP 20-22 exists, but no query finished within 20 minutes, so none is registered); the adaptive BITMAP arm end to end (symbolic execution "
                "through create/add/encode/decode at the real container constants does not finish)",
     "assumptions": ["size-dispatch allocator with failure injection (harness/common/vp_alloc.inc): realloc failure leaves the old block valid (C standard)"],
 }
